@@ -19,6 +19,9 @@ CLAIMED = {
     "C10": ("TLA+ spec (Tracker.tla) model-checked with TLC over all scenario-class histories (Identity, Distinct; counter-model outside the class must fail); paths of TLC's state graph replayed on the real Tracker and validated step by step by Trace_Tracker against the Track action",
             "Design: all histories of <=3 animals over 4-5 frames inside the scenario class keep identity, for 2 stores x 2 matchers x 2 reductions x windows {2,3} (TLC exhaustive); without the class restriction TLC finds the identity hand-over (non-vacuity). Code: maximal paths of the dumped state graph are replayed on a fresh real Tracker (3 feature/score pairs, seeded detection permutations, sub-pixel drift) and each real frame must be a Track(D) step of the spec with the observed assignment, with Identity/Distinct evaluated in every state.",
             "Trusts TLC, the separation abstraction (190 px apart, <=0.5 px drift), graph-path sampling in the quick tier.", "4 (C09/C10)"),
+    "C08": ("TLA+ spec (Grouping.tla) with the greedy assembly transcribed as coded and model-checked against connected components (TLC); real match_candidates_sample / PAFScorer.predict outputs judged by TLC against OptAssign and ValidGrouping with the observed line scores",
+            "Design: for every rooted labelled tree <= 4 nodes, every parent-first edge order, <= 2 peaks per node and every accepted one-to-one match set, the as-coded assembly loop yields exactly the connected components with at most one peak per node (TLC exhaustive, 220k states); with a non parent-first order TLC refutes it (C17 is load-bearing). Code: all score matrices over {NaN,-2,0,1,3} up to 2x2/1x3 plus sampled 3x3 through match_candidates_sample, and seeded random PAFScorer.predict scenes (coincident peaks, peaks outside the PAF extent, empty samples, all scorer parameters); TLC checks per-edge optimality of the observed matches and that the returned instances are the partition into components with the right scores and filter.",
+            "Trusts TLC, the 2^-16 score quantisation with stated slack; line-score geometry itself is C03's subject; non-tree skeletons out of scope.", "4 (C08/C17)"),
 }
 ALL = ["C%02d" % i for i in range(1, 21)]
 NOT_YET = "check not built yet in this round (planned, see DESIGN.md section 4/8)"
